@@ -337,6 +337,8 @@ type Ctx struct {
 	defs  []*Def
 	byN   map[string]*Def
 	count map[string]int
+	cse   map[string]string
+	lastDefined string
 }
 
 func newCtx(reg *Registry) *Ctx {
@@ -366,10 +368,20 @@ func (c *Ctx) Define(prefix, sort, body string) string {
 	if !strings.ContainsAny(body, " (") {
 		return body
 	}
+	// common subexpressions share one name, so that a term built twice (by the code and by a contract clause) is recognised as equal syntactically
+	key := sort + "\x00" + body
+	if c.cse == nil {
+		c.cse = map[string]string{}
+	}
+	if n, ok := c.cse[key]; ok {
+		return n
+	}
+	defer func() { c.cse[key] = c.lastDefined }()
 	name := c.uniq(prefix)
 	d := &Def{name: name, sort: sort, body: body, order: len(c.defs)}
 	c.defs = append(c.defs, d)
 	c.byN[name] = d
+	c.lastDefined = name
 	return name
 }
 
